@@ -134,7 +134,14 @@ impl<T: Send + Sync> AtomicIter<T> for ConIterOfVec<T> {
     }
 
     fn early_exit(&self) {
-        self.counter().store(self.vec_len)
+        // reserve all remaining positions, as a chunk pull does, so that no other caller can obtain them;
+        // and drop the skipped elements, which would otherwise count as delivered and never be dropped
+        if let Some(begin_idx) = self.progress_and_get_begin_idx(self.vec_len) {
+            let vec = unsafe { &*self.vec.get() };
+            let first = unsafe { (vec.as_ptr() as *mut T).add(begin_idx) };
+            let skipped = std::ptr::slice_from_raw_parts_mut(first, self.vec_len - begin_idx);
+            unsafe { std::ptr::drop_in_place(skipped) };
+        }
     }
 }
 
